@@ -105,6 +105,16 @@ def run_case(c):
                 return {"ret": bits(n, r), "first_after": bits(n, arr[0]), "second": bits(n, arr[1])}
             attempt("first-xobject-array/%s%s%s" % (n, "/after-growth" if call.get("grow") else "", "/bytearray-buffer" if call.get("bufkind") else ""), f,
                     expect={"ret": bits(n, vals[0]), "first_after": bits(n, vals[0] + np.asarray(1, dtype=X.DT[n])), "second": bits(n, vals[1])})
+        elif k == "reregister":
+            # a kernel name is compiled, called, compiled again with another body and another argument type, called again
+            def first():
+                ctx.add_kernels(sources=["/*gpufun*/ int32_t rr(int32_t x){ return x + 1; }"], kernels={"rr": xo.Kernel(args=[xo.Arg(xo.Int32, name="x")], ret=xo.Arg(xo.Int32))})
+                return int(ctx.kernels.rr(x=5))
+            attempt("re-registered-kernel/first", first, expect=6)
+            def second():
+                ctx.add_kernels(sources=["/*gpufun*/ int64_t rr(int64_t x){ return x + 2; }"], kernels={"rr": xo.Kernel(args=[xo.Arg(xo.Int64, name="x")], ret=xo.Arg(xo.Int64))})
+                return int(ctx.kernels.rr(x=2 ** 40))
+            attempt("re-registered-kernel/second", second, expect=2 ** 40 + 2)
         elif k == "same_object":
             x = call["x"]
             attempt("same-object-for-two-arguments/float-double", lambda: bits("Float64", K.mix_fd(a=x, b=x)), expect=bits("Float64", np.float64(x)))
